@@ -38,6 +38,12 @@ func c06Scenario(c *choice.Ctx, rep *report.R, prop string, nCalls, depth int) {
 	}
 	const timeout = 2 * time.Second
 	conns := map[int]*c06Conn{}
+	finished := false
+	defer func() {
+		if !finished {
+			abandon(tr, d, &calls)
+		}
+	}()
 	serialOwner := map[byte]string{}
 	var serial byte
 	var trace []string
@@ -222,6 +228,7 @@ func c06Scenario(c *choice.Ctx, rep *report.R, prop string, nCalls, depth int) {
 	for i, cl := range calls {
 		st[i] = cl.String()
 	}
+	finished = true
 	rep.Eval(strings.Join(trace, ",") + "=>" + strings.Join(st, ","))
 	rep.State(fmt.Sprintf("%v|%d", st, d.NumConns()))
 }
